@@ -179,6 +179,12 @@ def judge(d):
                 part = ldr.load(sl, output_shape=(3, 3, 3)) if len(subs[sl]) else subs[sl]
             if many.shape != (len(idx), 3, 3, 3) or not np.array_equal(many, subs[idx]):
                 out.append(viol("C03/load-list-rows", f"{tag}: load({idx}) != asnumpy()[{idx}] (shape {many.shape})"))
+            # the same indices as a numpy integer array (an iterable of ints as well)
+            with warnings.catch_warnings():
+                warnings.simplefilter("ignore")
+                many_a = ldr.load(np.array(idx, dtype=np.int64), output_shape=(3, 3, 3))
+            if many_a.shape != (len(idx), 3, 3, 3) or not np.array_equal(many_a, subs[idx]):
+                out.append(viol("C03/load-array-rows", f"{tag}: load(np.array({idx})) != asnumpy()[{idx}] (shape {many_a.shape})"))
             if part.shape != subs[sl].shape or not np.array_equal(part, subs[sl]):
                 out.append(viol("C03/load-slice-rows", f"{tag}: load({sl}) != asnumpy()[{sl}] (shape {part.shape})"))
 
